@@ -36,6 +36,7 @@ FAMILIES = {
     'math': lambda d, nl: '$' + ('(' + nl) * d + 'x' + (nl + ')') * d + '$',
     'mathcall': lambda d, nl: '$' + ('vec(' + nl) * d + 'x' + (nl + ')') * d + '$',
     'chain-in-args': lambda d, nl: '#' + ('a.b(' + nl) * d + 'x' + (nl + ')') * d,
+    'plain-dot-chain': lambda d, nl: '#' + ('aaa.bbb.ccc(' + nl) * d + 'x' + (nl + ')') * d,
     'binary': lambda d, nl: '#(' + ('a + (' + nl) * d + 'x' + (nl + ')') * d + ')',
     'dict': lambda d, nl: '#' + ('(k: ' + nl) * d + 'x' + (nl + ')') * d,
     'unary': lambda d, nl: '#(' + '-' * d + 'x)',
@@ -91,11 +92,16 @@ def run(S):
                         m = S.machine(core, STD, ctx, overrides={'convert_expr_impl': counter, 'SyntaxNode::into_text': into_text}, max_steps=5000000)
                         m.max_depth = 4000
                         root = deep.build(ctx, tree, kt, [0], concrete_ws=True)
-                        cfg = Agg('Config', None, (z3.BitVec('cfg_tab', 64), z3.BitVec('cfg_width', 64), 2, False), pp.CFG_NAMES)
+                        # widths: one path per representative (the only arithmetic on the width is the float product of chain_width, which
+                        # is decided for every width in C05; enumerating keeps floating-point reasoning out of these deep runs)
+                        WIDTHS = (0, 20, 40, 80, 120, 1 << 40)
+                        wsel = z3.Int('width_choice')
+                        width = WIDTHS[ctx.choose([wsel == q for q in range(len(WIDTHS))])]
+                        cfg = Agg('Config', None, (z3.BitVec('cfg_tab', 64), width, 2, False), pp.CFG_NAMES)
                         ctx.assume(z3.ULT(cfg.fields[0], 1 << 31))
 
                         def describe(mdl):
-                            return dict(family=variant, depth=d, source=src, tab=model_int(mdl, cfg.fields[0]), width=model_int(mdl, cfg.fields[1]))
+                            return dict(family=variant, depth=d, source=src, tab=model_int(mdl, cfg.fields[0]), width=width)
                         try:
                             attrs = m.call_fn(f_attr, [root])
                             pr, _ = pp.printer(m, cfg=cfg, attrs=attrs)
@@ -142,12 +148,17 @@ def run(S):
     for lab, info in found:
         if lab.startswith('C18:'):
             groups.setdefault((lab, info['family']), []).append(info)
+    reported = set()
     for (lab, fam), infos in sorted(groups.items()):
-        w = confirm_growth(S, fam)
-        key = '%s:%s' % (lab, fam)
+        base = fam.split(',')[0]
+        if (lab, base) in reported:
+            continue            # the one-line / multi-line / text-line spellings of a family are one finding
+        w = confirm_growth(S, fam, [i.get('width', 80) for i in infos[:3]])
+        key = '%s:%s' % (lab, base)
         if w:
-            S.violation(key, '%s: %s' % (key, w['what']), dict(api=w, model=infos[0]))
-        else:
+            reported.add((lab, base))
+            S.violation(key, '%s: %s' % (key, w['what']), dict(api=w, model=infos[0], spellings=sorted(f for (l2, f) in groups if l2 == lab and f.split(',')[0] == base)))
+        elif all((lab, f) in groups for f in (fam,)) and fam == sorted(f for (l2, f) in groups if l2 == lab and f.split(',')[0] == base)[-1]:
             S.inconclusive.append('%s: the solver-decided count (%r) does not show as super-linear running time natively' % (key, infos[0]))
     deep.report(S, 'C05', [(l, i) for l, i in found if l.startswith('C05:')])
     S.assumptions += [
@@ -157,27 +168,28 @@ def run(S):
     return S.finish(level='other', explanation=EXPLANATION, trusted=['mirsym encoder', 'typst-syntax contracts', 'the real parser for the node trees (driver)'])
 
 
-def confirm_growth(S, variant):
+def confirm_growth(S, variant, widths=(80,)):
     """time the real formatter on the family at growing depths: doubling the depth must not more than quadruple the time, and stays below a second"""
     import time
     parts = variant.split(',')
     gen = FAMILIES[parts[0]]
     nl = '\n' if 'multi-line' in parts else ''
     pre = 'text ' if 'text-line' in parts else ''
-    times = {}
-    for d in (4, 8, 12, 16, 20, 24):
-        src = pre + gen(d, nl) + '\n'
-        if S.driver.call('erroneous', hexs(src))[1] == '1':
-            break
-        t = time.time()
-        r = S.driver.call('format', hexs(src), 80, 2, 0)
-        dt = time.time() - t
-        times[d] = dt
-        if r[0] != 'ok' or dt > 20:
-            break
-    ds = sorted(times)
-    for a, b in zip(ds, ds[1:]):
-        if times[b] > 0.05 and times[b] > (b / float(a)) ** 2 * 2.0 * max(times[a], 0.002):
-            return dict(api='Typstyle::format_content', family=variant, seconds={str(k): round(v, 4) for k, v in times.items()},
-                        what='running time of the real formatter grows faster than quadratically with the nesting depth of %s: %r' % (variant, {k: round(v, 3) for k, v in times.items()}))
+    for width in list(dict.fromkeys(min(int(w), 1 << 40) for w in widths)) + [80]:
+        times = {}
+        for d in (4, 8, 12, 16, 20, 24):
+            src = pre + gen(d, nl) + '\n'
+            if S.driver.call('erroneous', hexs(src))[1] == '1':
+                break
+            t = time.time()
+            r = S.driver.call('format', hexs(src), width, 2, 0)
+            dt = time.time() - t
+            times[d] = dt
+            if r[0] != 'ok' or dt > 20:
+                break
+        ds = sorted(times)
+        for a, b in zip(ds, ds[1:]):
+            if times[b] > 0.05 and times[b] > (b / float(a)) ** 2 * 2.0 * max(times[a], 0.002):
+                return dict(api='Typstyle::format_content', family=variant, width=width, seconds={str(k): round(v, 4) for k, v in times.items()},
+                            what='running time of the real formatter (width %d) grows faster than quadratically with the nesting depth of %s: %r' % (width, variant, {k: round(v, 3) for k, v in times.items()}))
     return None
